@@ -12,7 +12,10 @@ ORACLE = "jsight-schema-core answers (schema extents, checks, examples) are repl
 PROPS = {
     "C01": dict(module="JsightVerif.Props.C01",
         ops=[op("proj", 15000, 1000000), op("scan", 20000, 2000000), op("build", 4000, 200000), op("cat", 6000, 300000)],
-        assumptions=["Go runtime stack/memory limits are outside the model; crash-isolated workers observe them", ORACLE]),
+        assumptions=["Go runtime stack/memory limits are outside the model; crash-isolated workers observe them", ORACLE,
+                     "A_len (built into the scanner model): a schema / enum extent answered by jsight-schema-core ends inside the file",
+                     "the scanner model carries a ghost bit (Sc.ph) without counterpart in the Go code; theorems about lexeme order are statements about it",
+                     "residual crash site of the scanning-stage model not excluded by a theorem: processBody right after an INCLUDE line (correspondence-level)"]),
     "C02": dict(module="JsightVerif.Props.C02", ops=[op("cat", 8000, 400000), op("model", 3000, 100000)], assumptions=[ORACLE]),
     "C03": dict(module="JsightVerif.Props.C03", ops=[op("fault", 4000, 200000), op("cat", 8000, 400000)], assumptions=[ORACLE]),
     "C04": dict(module="JsightVerif.Props.C04", ops=[op("build", 5000, 300000)], assumptions=["encoding/json escapes and emits UTF-8 faithfully", ORACLE]),
@@ -27,7 +30,8 @@ PROPS = {
     "C10": dict(module="JsightVerif.Props.C10", ops=[op("paste", 3000, 100000), op("cat", 8000, 400000)], assumptions=[ORACLE]),
     "C11": dict(module="JsightVerif.Props.C11", ops=[op("ctx", 8000, 0), op("proj", 10000, 300000)],
         assumptions=["reference context table = pinned transcription of the baseline table (no offline copy of the JSight 0.3 specification)"]),
-    "C12": dict(module="JsightVerif.Props.C12", ops=[op("scan", 40000, 2000000)], assumptions=["A_len: " + ORACLE]),
+    "C12": dict(module="JsightVerif.Props.C12", ops=[op("scan", 40000, 2000000)], assumptions=["A_len (built into the scanner model): a schema / enum extent answered by jsight-schema-core ends inside the file", ORACLE,
+                     "the scanner model carries a ghost bit (Sc.ph) without counterpart in the Go code; C12_lexeme_order is a statement about it"]),
     "C13": dict(module="JsightVerif.Props.C13", ops=[op("kw", 40000, 0)],
         assumptions=["keyword list regenerated from directive/enumeration.go; the harness pins the 30 JSight 0.3 keywords independently"]),
     "C14": dict(module="JsightVerif.Props.C14", ops=[op("name", 6000, 0), op("proj", 10000, 300000)],
